@@ -255,9 +255,24 @@ func (n *Net) StartMeasure() {
 		ctx, cancel := context.WithTimeout(context.Background(), n.Timeout)
 		defer cancel()
 		na := n.N.addr()
-		ts, off, err := client.MeasureClockOffsetIP(ctx, n.Client.Log, n.Client,
-			&net.UDPAddr{IP: net.ParseIP("127.0.0.1")},
-			&net.UDPAddr{IP: na.Addr().AsSlice(), Port: int(na.Port())})
+		var ts time.Time
+		var off time.Duration
+		var err error
+		func() {
+			// a panic of the client (it has no recover of its own) is an observation
+			defer func() {
+				if r := recover(); r != nil {
+					err = fmt.Errorf("PANIC: %v", r)
+					select {
+					case n.Logs <- LogRec{Msg: "client panic", Attrs: map[string]slog.Value{"panic": slog.StringValue(fmt.Sprint(r))}}:
+					default:
+					}
+				}
+			}()
+			ts, off, err = client.MeasureClockOffsetIP(ctx, n.Client.Log, n.Client,
+				&net.UDPAddr{IP: net.ParseIP("127.0.0.1")},
+				&net.UDPAddr{IP: na.Addr().AsSlice(), Port: int(na.Port())})
+		}()
 		n.calling.Store(false)
 		n.Done <- MeasureResult{ts, off, err}
 	}()
